@@ -135,7 +135,7 @@ Fixpoint lookup (tab : list (float * float)) (a : float) : float :=
 
 Definition fops (ctab stab : list (float * float)) : ops float :=
   mkops float PrimFloat.add PrimFloat.sub PrimFloat.mul PrimFloat.div PrimFloat.abs PrimFloat.sqrt FloatBits.of_nat
-        PrimFloat.ltb 0 0.1 0.2 0.5 1.1 180 0x1.921fb54442d18p+1 (lookup ctab) (lookup stab).
+        PrimFloat.ltb 0 0x1.999999999999ap-4 0x1.999999999999ap-3 0.5 0x1.199999999999ap+0 180 0x1.921fb54442d18p+1 (lookup ctab) (lookup stab).
 
 (* thetas = np.arange(lowest, highest, deg_step) *)
 Definition and_contour_f (ctab stab : list (float * float)) (sample : list (float * float))
